@@ -70,10 +70,11 @@ Fixpoint join_comma (vs : list str) : str :=
 (* HTTPHeaders.get(name, default): header lines in arrival order; a repeated
    name yields its values joined by ","                                  *)
 (* ------------------------------------------------------------------ *)
-Inductive hkind := HXff | HReal | HScheme | HProto | HOther.
+Inductive hkind := HXff | HReal | HScheme | HProto | HConn | HOther.
 Definition hkind_eqb (a b : hkind) : bool :=
   match a, b with
-  | HXff, HXff | HReal, HReal | HScheme, HScheme | HProto, HProto | HOther, HOther => true
+  | HXff, HXff | HReal, HReal | HScheme, HScheme | HProto, HProto | HConn, HConn
+  | HOther, HOther => true
   | _, _ => false
   end.
 Definition header := (hkind * str)%type.
@@ -84,6 +85,58 @@ Definition hget (k : hkind) (hs : list header) : option str :=
   | [] => None
   | vs => Some (join_comma vs)
   end.
+
+(* ------------------------------------------------------------------ *)
+(* Header names as sent: httputil._normalize_header                      *)
+(*   "-".join([w.capitalize() for w in name.split("-")])                 *)
+(* written as one pass (first character of each "-"-separated word upper-cased, the others
+   lower-cased, hyphens kept).  Exact on ASCII names (the only ones the wire grammar admits
+   for field names); other code points are left alone.                                     *)
+(* ------------------------------------------------------------------ *)
+Definition upper_c (c : N) : N := if in_range 97 122 c then c - 32 else c.
+Definition lower_c (c : N) : N := if in_range 65 90 c then c + 32 else c.
+Definition hyphen : N := 45.
+Fixpoint norm_header (start : bool) (s : str) : str :=
+  match s with
+  | [] => []
+  | c :: r => if c =? hyphen then hyphen :: norm_header true r
+              else (if start then upper_c c else lower_c c) :: norm_header false r
+  end.
+Definition n_xff : str :=      (* "X-Forwarded-For" *)
+  [88;45;70;111;114;119;97;114;100;101;100;45;70;111;114].
+Definition n_real : str := [88;45;82;101;97;108;45;73;112].                  (* "X-Real-Ip" *)
+Definition n_scheme : str := [88;45;83;99;104;101;109;101].                  (* "X-Scheme" *)
+Definition n_proto : str :=    (* "X-Forwarded-Proto" *)
+  [88;45;70;111;114;119;97;114;100;101;100;45;80;114;111;116;111].
+Definition n_conn : str := [67;111;110;110;101;99;116;105;111;110].          (* "Connection" *)
+(* which of the headers read by _apply_xheaders / _can_keep_alive a line belongs to *)
+Definition classify_name (name : str) : hkind :=
+  let n := norm_header true name in
+  if str_eqb n n_xff then HXff
+  else if str_eqb n n_real then HReal
+  else if str_eqb n n_scheme then HScheme
+  else if str_eqb n n_proto then HProto
+  else if str_eqb n n_conn then HConn
+  else HOther.
+Definition raw_header := (str * str)%type.       (* (name as sent, value) *)
+Definition classify_headers (hs : list raw_header) : list header :=
+  map (fun h => (classify_name (fst h), snd h)) hs.
+
+(* ------------------------------------------------------------------ *)
+(* http1connection.HTTP1Connection._can_keep_alive for a GET request:
+     if params.no_keep_alive: False
+     Connection value lower-cased; HTTP/1.1: != "close"; otherwise: == "keep-alive"
+   (str.lower is modelled on ASCII letters, which decides equality with these two words
+   for every Latin-1 value)                                              *)
+(* ------------------------------------------------------------------ *)
+Definition s_close : str := [99;108;111;115;101].
+Definition s_keep_alive : str := [107;101;101;112;45;97;108;105;118;101].
+Definition opt_is (o : option str) (w : str) : bool :=
+  match o with Some v => str_eqb (map lower_c v) w | None => false end.
+Definition can_keep_alive (no_keep_alive v11 : bool) (hs : list header) : bool :=
+  if no_keep_alive then false
+  else if v11 then negb (opt_is (hget HConn hs) s_close)
+  else opt_is (hget HConn hs) s_keep_alive.
 
 (* ------------------------------------------------------------------ *)
 (* netutil.is_valid_ip:  `if not ip or "\x00" in ip or not ip.isascii(): return False`,
@@ -184,6 +237,21 @@ Inductive how :=
 | CloseRaises.           (* as Close, and the application's on_connection_close raises:
                             _ProxyAdapter.on_connection_close skips _cleanup *)
 Definition request := (list header * how)%type.
+
+(* a request as the harness describes it: header lines as sent, and how it goes; for a request
+   that is read completely the HTTP version is given and the model decides keep-alive *)
+Inductive rhow :=
+| RBadHead | RFinish (v11 : bool) | RFinishRaises | RClose | RCloseRaises.
+Definition raw_request := (list raw_header * rhow)%type.
+Definition resolve (no_keep_alive : bool) (r : raw_request) : request :=
+  let hs := classify_headers (fst r) in
+  (hs, match snd r with
+       | RBadHead => BadHead
+       | RFinish v11 => Finish (can_keep_alive no_keep_alive v11 hs)
+       | RFinishRaises => FinishRaises
+       | RClose => Close
+       | RCloseRaises => CloseRaises
+       end).
 
 Definition view (c : ctx) : str * str := (remote_ip c, protocol c).
 
